@@ -609,6 +609,20 @@ def locate(fn, loc):
         # ("has_call", callee_suffix, min_count): does the function call `...callee_suffix(...)` at least min_count times?
         hits = [n for n in ast.walk(fn) if isinstance(n, ast.Call) and ast.unparse(n.func).endswith(loc[1])]
         return ast.copy_location(ast.Constant(len(hits) >= loc[2]), fn)
+    if kind == "arg_is_list":
+        # ("arg_is_list", callee_suffix, idx, nth): is positional argument idx of the nth call to `callee` a *materialised list* -- a list
+        # display, a list comprehension, `list(...)`, or a name assigned exactly once in the function to one of these?  -> a boolean
+        # constant (a generator expression handed to several consumers is exhausted by the first one).  Fails closed without such a call.
+        def is_list(e, depth=0):
+            if isinstance(e, (ast.List, ast.ListComp)):
+                return True
+            if isinstance(e, ast.Call) and ast.unparse(e.func) == "list":
+                return True
+            if isinstance(e, ast.Name) and depth == 0:
+                defs = [n for n in ast.walk(fn) if isinstance(n, ast.Assign) and any(isinstance(t, ast.Name) and t.id == e.id for t in n.targets)]
+                return len(defs) == 1 and is_list(defs[0].value, 1)
+            return False
+        return ast.copy_location(ast.Constant(value=bool(is_list(call_arg(fn, loc[1], loc[2], loc[3])))), fn)
     if kind == "call_before":
         # ("call_before", callee_a_suffix, callee_b_suffix): both calls occur and the first `a` precedes the first `b` in the source
         def first(suffix):
